@@ -1,0 +1,265 @@
+//! Plain-data facade over the crate-private DNS wire codec. Delegation only.
+
+pub use crate::dns_parser::verif_view::{MsgView, QuestionView, RDataView, RecordView};
+use crate::dns_parser::{
+    verif_view, DnsAddress, DnsIncoming, DnsOutgoing, DnsPointer, DnsRecordBox, DnsRecordExt,
+    DnsSrv, DnsTxt, InterfaceId, RRType,
+};
+use crate::ServiceInfo;
+use std::net::{IpAddr, Ipv4Addr, Ipv6Addr};
+
+/// `DnsIncoming::new` on `bytes`, as received on the given interface.
+pub fn decode(bytes: &[u8], if_name: &str, if_index: u32) -> Result<MsgView, String> {
+    let id = InterfaceId {
+        name: if_name.to_string(),
+        index: if_index,
+    };
+    match DnsIncoming::new(bytes.to_vec(), id) {
+        Ok(msg) => Ok(verif_view::view_msg(&msg)),
+        Err(e) => Err(e.to_string()),
+    }
+}
+
+#[derive(Clone, Debug, PartialEq, Eq)]
+pub enum RDataSpec {
+    A(Ipv4Addr),
+    Aaaa(Ipv6Addr),
+    Ptr(String),
+    Srv {
+        priority: u16,
+        weight: u16,
+        port: u16,
+        host: String,
+    },
+    Txt(Vec<u8>),
+}
+
+#[derive(Clone, Debug, PartialEq, Eq)]
+pub struct RecordSpec {
+    /// Owner name in the crate's text form (RFC 6763 escapes for '.' and '\\' inside labels).
+    pub name: String,
+    /// Class including the cache-flush bit.
+    pub class: u16,
+    pub ttl: u32,
+    pub rdata: RDataSpec,
+    /// Answers only: when non-zero the record is added "at time" `now`, i.e. dropped when
+    /// expired and written with its remaining TTL.
+    pub now: u64,
+}
+
+#[derive(Clone, Debug, Default, PartialEq, Eq)]
+pub struct MsgSpec {
+    pub flags: u16,
+    pub id: u16,
+    pub questions: Vec<(String, u16)>,
+    pub answers: Vec<RecordSpec>,
+    pub authorities: Vec<RecordSpec>,
+    pub additionals: Vec<RecordSpec>,
+}
+
+pub(crate) fn build_record(r: &RecordSpec) -> DnsRecordBox {
+    match &r.rdata {
+        RDataSpec::A(ip) => DnsAddress::new(
+            &r.name,
+            RRType::A,
+            r.class,
+            r.ttl,
+            IpAddr::V4(*ip),
+            InterfaceId::default(),
+        )
+        .boxed(),
+        RDataSpec::Aaaa(ip) => DnsAddress::new(
+            &r.name,
+            RRType::AAAA,
+            r.class,
+            r.ttl,
+            IpAddr::V6(*ip),
+            InterfaceId::default(),
+        )
+        .boxed(),
+        RDataSpec::Ptr(alias) => {
+            DnsPointer::new(&r.name, RRType::PTR, r.class, r.ttl, alias.clone()).boxed()
+        }
+        RDataSpec::Srv {
+            priority,
+            weight,
+            port,
+            host,
+        } => DnsSrv::new(
+            &r.name,
+            r.class,
+            r.ttl,
+            *priority,
+            *weight,
+            *port,
+            host.clone(),
+        )
+        .boxed(),
+        RDataSpec::Txt(text) => DnsTxt::new(&r.name, r.class, r.ttl, text.clone()).boxed(),
+    }
+}
+
+/// What `encode` did with each answer: the crate drops answers that are expired at their `now`.
+#[derive(Clone, Debug, Default)]
+pub struct EncodeOutcome {
+    pub packets: Vec<Vec<u8>>,
+    /// For each answer of the spec, whether the crate accepted it into the message.
+    pub answer_accepted: Vec<bool>,
+}
+
+/// Builds a `DnsOutgoing` with the crate's own constructors and encodes it with `to_packets`.
+/// Records are created at `current_time_millis()`; set the thread clock first if that matters.
+pub fn encode(spec: &MsgSpec) -> Result<EncodeOutcome, String> {
+    let mut out = DnsOutgoing::new(spec.flags);
+    out.set_id(spec.id);
+    for (name, qtype) in spec.questions.iter() {
+        let Some(t) = RRType::from_u16(*qtype) else {
+            return Err(format!("unknown qtype {qtype}"));
+        };
+        out.add_question(name, t);
+    }
+    let mut answer_accepted = Vec::new();
+    for a in spec.answers.iter() {
+        let accepted = match &a.rdata {
+            RDataSpec::A(ip) => out.add_answer_at_time(
+                DnsAddress::new(
+                    &a.name,
+                    RRType::A,
+                    a.class,
+                    a.ttl,
+                    IpAddr::V4(*ip),
+                    InterfaceId::default(),
+                ),
+                a.now,
+            ),
+            RDataSpec::Aaaa(ip) => out.add_answer_at_time(
+                DnsAddress::new(
+                    &a.name,
+                    RRType::AAAA,
+                    a.class,
+                    a.ttl,
+                    IpAddr::V6(*ip),
+                    InterfaceId::default(),
+                ),
+                a.now,
+            ),
+            RDataSpec::Ptr(alias) => out.add_answer_at_time(
+                DnsPointer::new(&a.name, RRType::PTR, a.class, a.ttl, alias.clone()),
+                a.now,
+            ),
+            RDataSpec::Srv {
+                priority,
+                weight,
+                port,
+                host,
+            } => out.add_answer_at_time(
+                DnsSrv::new(
+                    &a.name,
+                    a.class,
+                    a.ttl,
+                    *priority,
+                    *weight,
+                    *port,
+                    host.clone(),
+                ),
+                a.now,
+            ),
+            RDataSpec::Txt(text) => {
+                out.add_answer_at_time(DnsTxt::new(&a.name, a.class, a.ttl, text.clone()), a.now)
+            }
+        };
+        answer_accepted.push(accepted);
+    }
+    for a in spec.authorities.iter() {
+        out.add_authority(build_record(a));
+    }
+    for a in spec.additionals.iter() {
+        match &a.rdata {
+            RDataSpec::A(ip) => out.add_additional_answer(DnsAddress::new(
+                &a.name,
+                RRType::A,
+                a.class,
+                a.ttl,
+                IpAddr::V4(*ip),
+                InterfaceId::default(),
+            )),
+            RDataSpec::Aaaa(ip) => out.add_additional_answer(DnsAddress::new(
+                &a.name,
+                RRType::AAAA,
+                a.class,
+                a.ttl,
+                IpAddr::V6(*ip),
+                InterfaceId::default(),
+            )),
+            RDataSpec::Ptr(alias) => out.add_additional_answer(DnsPointer::new(
+                &a.name,
+                RRType::PTR,
+                a.class,
+                a.ttl,
+                alias.clone(),
+            )),
+            RDataSpec::Srv {
+                priority,
+                weight,
+                port,
+                host,
+            } => out.add_additional_answer(DnsSrv::new(
+                &a.name,
+                a.class,
+                a.ttl,
+                *priority,
+                *weight,
+                *port,
+                host.clone(),
+            )),
+            RDataSpec::Txt(text) => {
+                out.add_additional_answer(DnsTxt::new(&a.name, a.class, a.ttl, text.clone()))
+            }
+        }
+    }
+    let packets = out.to_packets();
+    Ok(EncodeOutcome {
+        packets: packets.iter().map(|p| p.as_bytes().to_vec()).collect(),
+        answer_accepted,
+    })
+}
+
+/// TXT RDATA the crate generates for `info`.
+pub fn txt_encode(info: &ServiceInfo) -> Vec<u8> {
+    info.generate_txt()
+}
+
+/// All key/value strings the crate decodes from TXT RDATA, before de-duplication.
+pub fn txt_decode_all(bytes: &[u8]) -> Vec<(String, Option<Vec<u8>>)> {
+    crate::service_info::decode_txt(bytes)
+        .into_iter()
+        .map(|p| (p.key().to_string(), p.val().map(|v| v.to_vec())))
+        .collect()
+}
+
+/// Pure helper functions of the daemon (name validation, conflict renaming).
+pub mod names {
+    use crate::service_daemon::verif_view as d;
+
+    pub fn name_change(original: &str) -> String {
+        d::name_change(original)
+    }
+    pub fn hostname_change(original: &str) -> String {
+        d::hostname_change(original)
+    }
+    pub fn valid_instance_name(name: &str) -> bool {
+        d::valid_instance_name(name)
+    }
+    pub fn check_service_name(fullname: &str) -> Result<(), String> {
+        d::check_service_name(fullname)
+    }
+    pub fn check_hostname(hostname: &str) -> Result<(), String> {
+        d::check_hostname(hostname)
+    }
+    pub fn check_domain_suffix(name: &str) -> Result<(), String> {
+        d::check_domain_suffix(name)
+    }
+    pub fn check_service_name_length(ty_domain: &str, limit: u8) -> Result<(), String> {
+        d::check_service_name_length(ty_domain, limit)
+    }
+}
